@@ -165,3 +165,43 @@ def random_tree(r, kind='html', max_nodes=7):
     if r.random() < 0.3:
         soup.append(bs4.NavigableString('\n'))
     return soup, root
+
+
+def twin_tree(r, kind='html'):
+    """Two or three differently labelled wrappers that each contain an exact copy of the same sub-tree (distinct nodes,
+    identical markup): what a cache keyed on structurally-comparing Tags confuses."""
+    import copy as _copy
+    soup = bs4.BeautifulSoup('', 'xml' if kind == 'xml' else 'html.parser')
+    root = soup.new_tag(r.choice(['a', 'b']))
+
+    def sub(depth):
+        el = soup.new_tag(r.choice(['a', 'b']))
+        if r.random() < 0.4:
+            el.attrs['class'] = r.sample(['k', 'm'], 1)
+        if r.random() < 0.4:
+            el.attrs[r.choice(['t', 'type'])] = r.choice(TVALS)
+        for _ in range(r.choice([1, 1, 2]) if depth < 2 else 0):
+            el.append(sub(depth + 1))
+        if r.random() < 0.3:
+            el.append(bs4.NavigableString(r.choice([' ', 'txt'])))
+        return el
+    shared = sub(0)
+    labels = [dict(id='i1'), dict(id='i2'), {'class': ['k']}, {'class': ['m']}, dict(t='x'), {}]
+    r.shuffle(labels)
+    for i in range(r.choice([2, 2, 3])):
+        w = soup.new_tag(r.choice(['a', 'b']))
+        for k, v in labels[i].items():
+            w.attrs[k] = v
+        if r.random() < 0.4:
+            inner = soup.new_tag(r.choice(['a', 'b']))
+            w.append(inner)
+            inner.append(_copy.copy(shared))
+        else:
+            w.append(_copy.copy(shared))
+        if r.random() < 0.3:
+            w.append(soup.new_tag('b'))
+        root.append(w)
+    if kind == 'detached':
+        return root, root
+    soup.append(root)
+    return soup, root
